@@ -36,7 +36,7 @@ func (t *T0x0704) Protocol() consts.JT808CommandType {
 
 func (t *T0x0704) Parse(jtMsg *jt808.JTMessage) error {
 	body := jtMsg.Body
-	if len(body) < 31 {
+	if len(body) < 3 { // 数据项个数可以是0 每一项在循环里面单独校验
 		return protocol.ErrBodyLengthInconsistency
 	}
 	t.Num = binary.BigEndian.Uint16(body[:2])
